@@ -197,8 +197,10 @@ func (t *Topic) procPresReq(fromUserID, what string, wantReply bool) string {
 				// If the connection is not enabled, ignore the update.
 				what = ""
 			}
-		} else {
-			// Not in list and asked to be removed from the list - ignore
+		} else if what != "gone" {
+			// Not in list and asked to be removed from the list - ignore.
+			// 'gone' is still passed on: the subscription is deleted whether or not
+			// its notifications were enabled (a muted topic is not in the list).
 			what = ""
 		}
 	}
